@@ -207,6 +207,13 @@ def mark_levels(root):
 LEVEL_RANK = {"factory": 0, "app": 1, "sub": 2, "event": 3}
 
 
+def level_rank_of(sc):
+    s = sc
+    while s is not None and s.level is None:
+        s = s.parent
+    return LEVEL_RANK.get(s.level) if s is not None else None
+
+
 class Finding:
     def __init__(self, prop, func, label, detail, line):
         self.prop, self.func, self.label, self.detail, self.line = prop, func, label, detail, line
@@ -232,6 +239,27 @@ def analyse_function(relpath, fn, loader, iterable_params):
                 root.level = "app"
     if curried and root.level == "factory":
         root.level = "app"
+    # a nested function or lambda that is HANDED ON as an argument (the projection given to ops.map, an accumulator given to scan, a
+    # predicate given to filter) is run by the operator it is given to once per element: event level - whatever it writes or consumes
+    # outside itself is state that must be allocated per subscription
+    passed = set()
+    for n in ast.walk(fn):
+        if isinstance(n, ast.Call):
+            fname_ = n.func.id if isinstance(n.func, ast.Name) else (n.func.attr if isinstance(n.func, ast.Attribute) else None)
+            if fname_ in ("Observable", "defer", "create", "ConnectableObservable", "curry_flip", "synchronized", "subscribe", "subscribe_",
+                          "schedule", "schedule_relative", "schedule_absolute", "schedule_periodic", "add_done_callback", "Disposable"):
+                continue  # (handlers of a subscription / scheduled actions the function sets up itself: levelled by mark_levels)
+            for a in list(n.args) + [k.value for k in n.keywords]:
+                if isinstance(a, ast.Name):
+                    passed.add(a.id)
+                elif isinstance(a, ast.Lambda):
+                    passed.add(id(a))
+    for sc in all_scopes(root):
+        if sc is root or sc.level is not None:
+            continue
+        if (isinstance(sc.node, ast.FunctionDef) and sc.node.name in passed) or id(sc.node) in passed:
+            if sc.parent is not None and level_rank_of(sc.parent) is not None and level_rank_of(sc.parent) < LEVEL_RANK["sub"]:
+                sc.level = "event"
     multicast = relpath in MULTICAST_FILES
     hot = fn.name in HOT_FUNCS
 
